@@ -56,6 +56,13 @@ RULE = ("paired real runs: 2D shelf/VISF vs 1D of equal cross-section (radial sp
 EXPLANATION = ("Lean theorems for the algebraic identities between the models + differential check of the 2D model + "
                "paired real runs for the limits")
 PARALLEL = True
+LEVEL_TEXT = ("Proof for the algebraic identities, evaluation for the limits. Lean 4 theorems (exact reals): the repaired 2D "
+              "cooling step without jacket keeps a radially uniform field uniform and each column is the 1D step; exact "
+              "Rat counter-example for the aliased in-place update of the code before F10; cooling-stage evaporative "
+              "flux 2D = 1D after F11; mean of the 1D column obeys the 0D formula; isolated Snowflake liquid step = 0D "
+              "cooling step; 0D nucleation state = Snowflake direct formulation; same solidification ODE. NOT theorems "
+              "(evaluated on paired real runs, reported in the evidence): thin-vial limit |T[0]-mean| <= Bi*|T_sh-mean|, "
+              "O(dt) agreement of solidification times, 2D-vs-1D agreement of whole trajectories.")
 
 
 def _strip(case):
